@@ -318,6 +318,7 @@ def main():
     ap.add_argument('--tier', default=os.environ.get('VERIF_TIER', 'quick'))
     ap.add_argument('--replay')
     ap.add_argument('--level', default='proof')
+    ap.add_argument('--aux', help='auxiliary run for another check script: skip the proof obligations, write no evidence file, write a summary JSON here')
     args = ap.parse_args()
     pid = args.pid
     tier = args.tier if args.tier in ('quick', 'thorough') else 'quick'
@@ -326,7 +327,12 @@ def main():
     gmod = importlib.import_module('gen.' + pid.lower())
 
     log(f'{pid} tier={tier} seed={seed}: proof obligations')
-    po = proof_obligations(pid, tier)
+    if args.aux:
+        po = dict(obligations=0, discharged=0, theorems=[], failed=[], build_ok=True, log='', partial=[])
+        with Lock('lake'):
+            sh(['lake', 'build', 'cbmodel'], LEAN)
+    else:
+        po = proof_obligations(pid, tier)
     log(f"obligations {po['discharged']}/{po['obligations']} build_ok={po['build_ok']}")
     model_bin_ok = os.path.exists(model_cmd()[0])
     if not po['build_ok']:
@@ -384,7 +390,7 @@ def main():
         lines = []
         cpath = os.path.join(VERIF, 'corpus', pid + '.txt')
         if os.path.exists(cpath):
-            lines += [l.strip() for l in open(cpath) if l.strip() and not l.startswith('#')]
+            lines += [l.strip() for l in open(cpath) if l.strip() and not l.startswith('#') and l.startswith(pid.lower() + '.')]
         boost = 10 if not po['build_ok'] or po['failed'] else 1
         for _ in range(boost):
             lines += list(gmod.gen(tier, rng))
@@ -572,7 +578,11 @@ def main():
             hook_disagreements=len(hookbreak)),
         assumptions=getattr(gmod, 'ASSUMPTIONS', []) + ['only target_pointer_width=64 is modelled'],
         wall_s=round(time.time() - t0, 2), violations=len(viol))
-    if not args.replay:
+    if args.aux:
+        json.dump(dict(rc=rc, lines=len(lines), distinct_nontrivial=distinct, violations=len(viol), hook_disagreements=len(hookbreak),
+                       ops_histogram=ops_hist, samples=samples[:4], known_findings_hit={k: len(v) for k, v in known_hits.items()},
+                       messages=msgs), open(args.aux, 'w'), indent=1)
+    elif not args.replay:
         json.dump(ev, open(os.path.join(VERIF, 'evidence', pid + '.json'), 'w'), indent=1)
     log(f'done rc={rc} lines={len(lines)} viol={len(viol)} known={sum(len(v) for v in known_hits.values())} wall={ev["wall_s"]}s')
     sys.exit(rc)
